@@ -16,21 +16,40 @@ FALLBACK_TEXT = "Fail to generate a physical correlation matrix"
 
 
 class Capture:
-    """records every numpy.random.normal call made while active"""
+    """records every numpy.random.normal call made while active (and the equivalent spellings
+    numpy.random.standard_normal(n) / numpy.random.randn(n), recorded as normal(0, 1, n))"""
 
     def __enter__(self):
         self.calls = []
         self._orig = np.random.normal
+        self._orig_sn = np.random.standard_normal
+        self._orig_rn = np.random.randn
 
         def recording(*a, **k):
             out = self._orig(*a, **k)
-            self.calls.append((a, np.array(out, dtype=float, copy=True)))
+            args = tuple(a) + tuple(k[x] for x in ("loc", "scale", "size")[len(a):] if x in k)
+            self.calls.append((args, np.array(out, dtype=float, copy=True)))
+            return out
+
+        def recording_sn(size=None, *a, **k):
+            out = self._orig_sn(size, *a, **k)
+            self.calls.append(((0, 1, size), np.array(out, dtype=float, copy=True)))
+            return out
+
+        def recording_rn(*dims):
+            out = self._orig_rn(*dims)
+            self.calls.append(((0, 1, dims[0] if len(dims) == 1 else dims),
+                               np.array(out, dtype=float, copy=True)))
             return out
         np.random.normal = recording
+        np.random.standard_normal = recording_sn
+        np.random.randn = recording_rn
         return self
 
     def __exit__(self, *exc):
         np.random.normal = self._orig
+        np.random.standard_normal = self._orig_sn
+        np.random.randn = self._orig_rn
         return False
 
 
